@@ -108,7 +108,31 @@ def gen_topo(rng, n, extra, maxlen_km=180, fused_p=0.1, amp_p=0.15, cut=False, p
         if raman:
             ln.update(tab=tab, tba=tba)
         lines.append(ln)
+    if lines and all(not ln['ab'] and not ln['ba'] and 'A' not in ln['mab'] + ln['mba'] for ln in lines):
+        # every hop is a Fused patch: the network would hold no amplifier at all and gnpy's build_oms_list has no band to
+        # start from (find_network_freq_range: min() of an empty list -- a matter of C15, not of the routing properties).
+        # Such a mesh is not generated: one hop gets a fibre line (auto-design then adds its amplifiers).
+        GEN_STATS['mesh_without_amplifier_not_generated'] = GEN_STATS.get('mesh_without_amplifier_not_generated', 0) + 1
+        ab, ba = spans(), spans()
+        (mab, tab), (mba, tba) = decor(ab), decor(ba)
+        lines[0].update(ab=ab, ba=ba, mab=mab, mba=mba)
+        if raman:
+            lines[0].update(tab=tab, tba=tba)
     return {'n': n, 'lines': lines}
+
+
+GEN_STATS = {}
+
+
+def try_net(ctx, topo):
+    """a topology the harness cannot prepare (load, auto-design, OMS list) is counted and skipped, never a crash"""
+    try:
+        return Net(topo)
+    except Exception as e:  # noqa
+        ctx.count('topology_not_prepared_' + type(e).__name__)
+        if sum(1 for n_ in ctx.notes if n_.startswith('not prepared:')) < 3:
+            ctx.notes.append(f'not prepared: {type(e).__name__}: {str(e)[:160]} on ' + json.dumps(topo)[:600])
+        return None
 
 
 def topo_json(topo):
@@ -673,7 +697,9 @@ def run_big(ctx, rng, nnets, fixed=None):
             topo = gen_topo(rng, n, rng.randint(2, n // 2 + 2))
         else:
             topo = fixed[i]['topo']
-        N = Net(topo)
+        N = try_net(ctx, topo)
+        if N is None:
+            continue
         if not N.exact:
             ctx.count('skipped_inexact_weights')
             continue
@@ -800,7 +826,9 @@ def run(ctx):
         for c in nets[k0:k0 + chunk]:
             if c.get('big'):
                 continue
-            N = Net(c['topo'])
+            N = try_net(ctx, c['topo'])
+            if N is None:
+                continue
             if not N.exact:
                 ctx.count('skipped_inexact_weights')
                 continue
@@ -854,4 +882,7 @@ def run(ctx):
         'a list, optimality is concluded only when the leg distances add up to the weight of the path (counter '
         'big_with_list_optimality_not_judged otherwise); unsatisfiable lists are exercised on the 2-8 site meshes only',
     ]
+    for k, v in GEN_STATS.items():
+        ctx.count(k, v)
+    GEN_STATS.clear()
     return common.finish(ctx)
